@@ -219,7 +219,7 @@ PROPS = {
     "C08": {
         "claim": "Theorems: inputs_filtered_fresh (every declared input passes the input filter and is not a supplied vertex, any oracle), output_filter, succeeds_when_permitted (subtype-free single-input fragment, any oracle: every parameter permitted and outputs admitted => the planning run succeeds), callable_graph / callable (same fragment: the call the redefined function makes is never refused for lack of an argument; two counterexamples to the statements without the one-type-per-name / lower-case-name hypotheses), inputSet_root_adjacent, root_adjacent_supplied_or_permitted. Redefine yields a function over exactly the missing, permitted inputs. Tied to the code by replaying the planning run (redefine-mode reachTarget with zero-producing stand-ins) through the model: call graph with filter-gated root edges, requirement order, pop orders, paths and the declared input set are compared; the redefined function is then called and the inner Call is replayed as an ordinary call with the extra values.",
         "note": "premise of the property: single-input converters, no subtypes, one type per name (the generator respects it).",
-        "theorems": ["ArgMapper.C08.succeeds_when_permitted", "ArgMapper.C08.callable_graph", "ArgMapper.C08.callable", "ArgMapper.C08.newFunc_lowerNames", "ArgMapper.C08.counterexample_upper_case_name", "ArgMapper.C08.counterexample_name_with_two_types", "ArgMapper.C08.inputs_filtered_fresh", "ArgMapper.C08.declared_not_supplied", "ArgMapper.C08.output_filter", "ArgMapper.C08.inputSet_root_adjacent", "ArgMapper.C08.root_adjacent_supplied_or_permitted"], "facts": {"r5SkipSame": "true", "r6NameTest": "true", "publishAfterUpdate": "true", "trackReaching": "true", "takeValuedNamed": "true", "hopCopies": "true", "memoCopy": "true", "r8SkipSupplied": "true", "skipRecordsInput": "false", "dupIsError": "true", "onceLockCoversCall": "true"},
+        "theorems": ["ArgMapper.C08.succeeds_when_permitted", "ArgMapper.C08.callable_graph", "ArgMapper.C08.callable", "ArgMapper.C08.newFunc_lowerNames", "ArgMapper.C08.counterexample_upper_case_name", "ArgMapper.C08.counterexample_name_with_two_types", "ArgMapper.C08.inputs_filtered_fresh", "ArgMapper.C08.declared_not_supplied", "ArgMapper.C08.output_filter", "ArgMapper.C08.inputSet_root_adjacent", "ArgMapper.C08.root_adjacent_supplied_or_permitted", "ArgMapper.C08.evalAny_iff", "ArgMapper.C08.evalAll_iff", "ArgMapper.C08.or_nil", "ArgMapper.C08.and_nil", "ArgMapper.C08.and_singleton", "ArgMapper.C08.or_singleton", "ArgMapper.C08.and_or_or", "ArgMapper.C08.or_of_singleton_ands"], "facts": {"r5SkipSame": "true", "r6NameTest": "true", "publishAfterUpdate": "true", "trackReaching": "true", "takeValuedNamed": "true", "hopCopies": "true", "memoCopy": "true", "r8SkipSupplied": "true", "skipRecordsInput": "false", "dupIsError": "true", "onceLockCoversCall": "true"},
         "rule": "redef: any planning run; call: at least one function executed.",
         "runs": {"quick": [fam("redef", 500, 0)], "thorough": [fam("redef", 40000, 0)]},
     },
